@@ -1,5 +1,6 @@
 import Emboss.Model.Text
 import Emboss.Model.TextTree
+import Emboss.Model.TextRead
 import Driver.Util
 open Emboss.Text Driver
 
@@ -94,6 +95,62 @@ def parseFields : Nat → Nat → List String → Option (TFields × List String
   | _, _, _ => none
 end
 
+/-- Reader shapes: `i <ty> <lo> <hi>` | `b` | `f` | `e <ty> <lo> <hi> <k> (<namehex> <v>)…` |
+`a <count> elem` | `s <n> (<namehex> shape)…`. -/
+def parseEnumNames : Nat → List String → Option (List (List Char × Int) × List String)
+  | 0, r => some ([], r)
+  | k + 1, n :: v :: r => do
+    let nm ← unhex n.toList
+    let x ← v.toInt?
+    let (rest, r') ← parseEnumNames k r
+    pure ((nm, x) :: rest, r')
+  | _, _ => none
+
+mutual
+def parseShape : Nat → List String → Option (RShape × List String)
+  | 0, _ => none
+  | _ + 1, "i" :: ty :: lo :: hi :: r => do
+    let T ← parseTy ty
+    let l ← lo.toInt?
+    let h ← hi.toInt?
+    pure (.scalar (.int T l h), r)
+  | _ + 1, "b" :: r => some (.scalar .bool, r)
+  | _ + 1, "f" :: r => some (.scalar .float, r)
+  | _ + 1, "e" :: ty :: lo :: hi :: k :: r => do
+    let T ← parseTy ty
+    let l ← lo.toInt?
+    let h ← hi.toInt?
+    let n ← k.toNat?
+    let (names, r') ← parseEnumNames n r
+    pure (.scalar (.enumR names T l h), r')
+  | fuel + 1, "a" :: n :: r => do
+    let k ← n.toNat?
+    let (e, r') ← parseShape fuel r
+    pure (.arr k e, r')
+  | fuel + 1, "s" :: n :: r => do
+    let k ← n.toNat?
+    let (fs, r') ← parseShapeFields fuel k r
+    pure (.struct fs, r')
+  | _, _ => none
+def parseShapeFields : Nat → Nat → List String → Option (RFields × List String)
+  | 0, _, _ => none
+  | _, 0, r => some (.nil, r)
+  | fuel + 1, k + 1, name :: r => do
+    let nm ← unhex name.toList
+    let (sh, r1) ← parseShape fuel r
+    let (fs, r2) ← parseShapeFields fuel k r1
+    pure (.cons nm sh fs, r2)
+  | _, _, _ => none
+end
+
+def showWVal : WVal → String
+  | .int v => toString v
+  | .bool b => if b then "true" else "false"
+  | .float t => "tok:" ++ hexOf t
+
+def showWrites (ws : List Write) : String :=
+  String.join (ws.map fun w => String.ofList w.1 ++ "=" ++ showWVal w.2 ++ ";")
+
 def handle (line : String) : String :=
   match line.splitOn " " with
   | ["WINT", ty, v, b, g] =>
@@ -123,6 +180,14 @@ def handle (line : String) : String :=
       | some (_, _ :: _) => "bad-op"
       | none => if rest.length = 0 then "bad-op" else "bad-op"
     | _, _, _, _, _ => "bad-op"
+  | "RVAL" :: h :: rest =>
+    match unhexTok h, parseShape (rest.length + 1) rest with
+    | some text, some (shape, []) =>
+      match updateFromText shape text with
+      | .ok ws _ => "ok " ++ showWrites ws
+      | .fail => "fail"
+      | .outOfFuel => "out-of-fuel"
+    | _, _ => "bad-op"
   | _ => "bad-op"
 
 def main : IO Unit := run handle
